@@ -306,6 +306,11 @@ def run_property(prop, tier):
             return 2
 
     # ---- generated search
+    import threading
+    stop = threading.Event()
+    procs = {}
+    plock = threading.Lock()
+
     def run_job(idx_job):
         idx, j = idx_job
         exe = os.path.join(BUILD, j["target"])
@@ -316,59 +321,87 @@ def run_property(prop, tier):
         cmd = [exe, "--prop", j.get("prop", prop), "--rc", "--out", out, "--replay-dir", REPLAYS,
                "--worker", str(j.get("worker", 0)), "--workers", str(j.get("workers", 1))] + kf_args
         t1 = time.time()
-        try:
-            r = subprocess.run(cmd, capture_output=True, text=True, env=env, timeout=j.get("timeout", 3600 if tier == "quick" else 6 * 3600))
-            rc, txt = r.returncode, r.stdout + r.stderr
-        except subprocess.TimeoutExpired as e:
-            rc, txt = None, "timeout"
+        if stop.is_set():
+            return idx, j, "skipped", "", out, 0.0
+        logp = os.path.join(work, "w%03d.log" % idx)
+        with open(logp, "w") as lf:
+            pr = subprocess.Popen(cmd, stdout=lf, stderr=subprocess.STDOUT, env=env)
+        with plock:
+            procs[idx] = pr
+        limit = j.get("timeout", 3600 if tier == "quick" else 8 * 3600)
+        rc = None
+        while True:
+            try:
+                rc = pr.wait(timeout=0.5)
+                break
+            except subprocess.TimeoutExpired:
+                if stop.is_set():
+                    pr.kill(); pr.wait(); rc = "stopped"; break
+                if time.time() - t1 > limit:
+                    pr.kill(); pr.wait(); rc = None; break
+        txt = open(logp, errors="replace").read()
         return idx, j, rc, txt, out, time.time() - t1
 
-    with ThreadPoolExecutor(max_workers=JOBS) as ex:
-        for idx, j, rc, txt, out, dt in ex.map(run_job, list(enumerate(jobs))):
-            st = None
-            if os.path.exists(out):
-                try:
-                    st = json.load(open(out))
-                except Exception as e:
-                    st = None
-            results.append((idx, j, rc, st, dt))
-            if rc == 0 and st is not None:
-                continue
-            if rc is None:
-                inconclusive.append("worker %d (%s) timed out" % (idx, j["target"]))
-                continue
-            if rc == 1 and st is not None and st.get("replay"):
-                # confirm by replaying the shrunk case, bypassing rapidcheck, three times
-                fails = 0
-                last = ""
-                for _ in range(3):
-                    rrc, rout = replay_once(j["target"], st["replay"], kf_args)
-                    last = rout or ""
-                    if rrc == 1 or (rrc is not None and rrc not in (0, 1, 2)):
-                        fails += 1
-                if fails == 3:
-                    violations.append((st["replay"], "%s: %s" % (st.get("fail_class"), st.get("fail_msg"))))
-                else:
-                    inconclusive.append("worker %d reported a failure that did not reproduce on replay (%d/3): %s" % (idx, fails, st.get("replay")))
-                continue
-            # crash: sanitizer report / assertion / signal
-            crash = None
-            m = re.search(r"VERIF-CRASH case written to (\S+)", txt or "")
-            if m:
-                crash = m.group(1)
-            if crash and os.path.exists(crash):
-                rrc, rout = replay_once(j["target"], crash, kf_args)
-                if rrc not in (0, 2, None):
-                    log = crash + ".log"
-                    open(log, "w").write((txt or "")[-20000:] + "\n==== replay ====\n" + (rout or "")[-20000:])
-                    violations.append((crash, "process died while running the case (sanitizer report / assertion); log " + log))
-                else:
-                    inconclusive.append("worker %d crashed (rc=%s) but the dumped case does not reproduce" % (idx, rc))
+    def handle(idx, j, rc, txt, out, dt):
+        st = None
+        if os.path.exists(out):
+            try:
+                st = json.load(open(out))
+            except Exception as e:
+                st = None
+        results.append((idx, j, rc, st, dt))
+        if rc in ("skipped", "stopped"):
+            return None
+        if rc == 0 and st is not None:
+            return None
+        if rc is None:
+            inconclusive.append("worker %d (%s) timed out" % (idx, j["target"]))
+            return None
+        if rc == 1 and st is not None and st.get("replay"):
+            # confirm by replaying the shrunk case, bypassing rapidcheck, three times
+            fails = 0
+            for _ in range(3):
+                rrc, rout = replay_once(j["target"], st["replay"], kf_args)
+                if rrc == 1 or (rrc is not None and rrc not in (0, 1, 2)):
+                    fails += 1
+            if fails == 3:
+                violations.append((st["replay"], "%s: %s" % (st.get("fail_class"), st.get("fail_msg"))))
+                stop.set()
             else:
-                tail = "\n".join((txt or "").strip().splitlines()[-15:])
-                print("HARNESS-ERROR: worker %d (%s) exited with rc=%s without a case file:\n%s" % (idx, j["target"], rc, tail))
-                shutil.rmtree(work, ignore_errors=True)
-                return 2
+                inconclusive.append("worker %d reported a failure that did not reproduce on replay (%d/3): %s" % (idx, fails, st.get("replay")))
+            return None
+        # crash: sanitizer report / assertion / signal
+        crash = None
+        m = re.search(r"VERIF-CRASH case written to (\S+)", txt or "")
+        if m:
+            crash = m.group(1)
+        if crash and os.path.exists(crash):
+            rrc, rout = replay_once(j["target"], crash, kf_args)
+            if rrc not in (0, 2, None):
+                log = crash + ".log"
+                rep = [l for l in (txt or "").splitlines() if "ERROR:" in l or "SUMMARY:" in l or "runtime error" in l or "Assertion" in l]
+                open(log, "w").write((txt or "")[-20000:] + "\n==== replay ====\n" + (rout or "")[-20000:])
+                violations.append((crash, "process died while running the case (%s); log %s" % ("; ".join(x.strip()[:200] for x in rep[:2]) or "sanitizer report / assertion / signal", log)))
+                stop.set()
+            else:
+                inconclusive.append("worker %d crashed (rc=%s) but the dumped case does not reproduce" % (idx, rc))
+            return None
+        tail = "\n".join(l[:300] for l in (txt or "").strip().splitlines()[-15:])
+        return "HARNESS-ERROR: worker %d (%s) exited with rc=%s without a case file:\n%s" % (idx, j["target"], rc, tail)
+
+    from concurrent.futures import as_completed
+    herr = None
+    with ThreadPoolExecutor(max_workers=JOBS) as ex:
+        futs = [ex.submit(run_job, ij) for ij in enumerate(jobs)]
+        for f in as_completed(futs):
+            e = handle(*f.result())
+            if e and not herr:
+                herr = e
+                stop.set()
+    if herr:
+        print(herr)
+        shutil.rmtree(work, ignore_errors=True)
+        return 2
 
     # ---- merge statistics
     evaluations = sum(st["evaluations"] for _, _, _, st, _ in results if st)
